@@ -1275,11 +1275,13 @@ std::string Generator::GeneratorImpl::generateMinusUnaryCode(const AnalyserEquat
 
     // Determine whether parentheses should be added around the left code.
 
-    if (isRelationalOperator(astLeftChild)
+    if (isNegativeNumber(astLeftChild)
+        || isRelationalOperator(astLeftChild)
         || isLogicalOperator(astLeftChild)
         || isPlusOperator(astLeftChild)
         || isMinusOperator(astLeftChild)
-        || isPiecewiseStatement(astLeftChild)) {
+        || isPiecewiseStatement(astLeftChild)
+        || (code.rfind(mProfile->minusString(), 0) == 0)) {
         code = "(" + code + ")";
     }
 
